@@ -165,7 +165,7 @@ inductive DownKind where
 structure Inp where
   rules : List Rules.Rule := []
   downKinds : List DownKind := []
-  keyCfg : TraceKey.Cfg := ⟨[], false⟩
+  keyCfg : TraceKey.Cfg := { fields := [], useTraceLength := false }
   spans : List SpanIn := []
   g : Graph := {}
   bad : Bool := false
@@ -201,7 +201,7 @@ def addExt (g : Graph) (bad : Bool) (e : List String) (evalOnly : Bool) : Graph 
   | ["rxc", p, "=", r] => if evalOnly then ({ g with rxc := (dec p, r == "1") :: g.rxc }, bad) else (g, true)
   | ["rxm", p, s, "=", r] => if evalOnly then ({ g with rxm := ((dec p, dec s), r == "1") :: g.rxm }, bad) else (g, true)
   | ["down", i, "=", rate, keep, reason, key] => match i.toNat?, rate.toNat? with
-    | some i, some rate => ({ g with down := (i, ⟨rate, keep == "1", dec reason, dec key⟩) :: g.down }, bad)
+    | some i, some rate => ({ g with down := (i, { rate := rate, keep := keep == "1", reason := dec reason, key := dec key }) :: g.down }, bad)
     | _, _ => (g, true)
   | ["intn", n, "=", d] => match n.toInt?, d.toNat? with
     | some n, some d => ({ g with intn := (n, d) :: g.intn }, bad)
@@ -263,7 +263,7 @@ def applyInput (st : Inp) (op : List String) (exts : List (List String)) : Optio
     | _, _, _ => some none
   | "key" :: args =>
     match ((kv args "rate").getD "x").toNat? with
-    | some (_ + 1) => some (some { st with keyCfg := ⟨decList ((kv args "fields").getD "-"), (kv args "tl") == some "1"⟩ })
+    | some (_ + 1) => some (some { st with keyCfg := { fields := decList ((kv args "fields").getD "-"), useTraceLength := (kv args "tl") == some "1" } })
     | _ => some none
   | "span" :: args =>
     let step (acc : Option (Bool × Option Path × List (String × Wire))) (a : String) :=
